@@ -134,9 +134,9 @@ Local Open Scope string_scope.
    124  archive_write.c:571  [archive_write_open]  ARCHIVE_STATE_NEW
    125  archive_write.c:622  [archive_write_close]  ARCHIVE_STATE_ANY | ARCHIVE_STATE_FATAL
    126  archive_write.c:703  [archive_write_free]  ARCHIVE_STATE_ANY | ARCHIVE_STATE_FATAL
-   127  archive_write.c:740  [archive_write_header]  ARCHIVE_STATE_DATA | ARCHIVE_STATE_HEADER
-   128  archive_write.c:804  [archive_write_finish_entry]  ARCHIVE_STATE_HEADER | ARCHIVE_STATE_DATA
-   129  archive_write.c:823  [archive_write_data]  ARCHIVE_STATE_DATA
+   127  archive_write.c:747  [archive_write_header]  ARCHIVE_STATE_DATA | ARCHIVE_STATE_HEADER
+   128  archive_write.c:811  [archive_write_finish_entry]  ARCHIVE_STATE_HEADER | ARCHIVE_STATE_DATA
+   129  archive_write.c:830  [archive_write_data]  ARCHIVE_STATE_DATA
    130  archive_write_add_filter_b64encode.c:85  [archive_write_add_filter_b64encode]  ARCHIVE_STATE_NEW
    131  archive_write_add_filter_bzip2.c:86  [archive_write_add_filter_bzip2]  ARCHIVE_STATE_NEW
    132  archive_write_add_filter_compress.c:133  [archive_write_add_filter_compress]  ARCHIVE_STATE_NEW
